@@ -1369,7 +1369,7 @@ class HSM2Dongle:
 
             # How many bytes to send as the first block chunk
             bytes_requested = response[self.OFF.DATA]
-        except ValueError as e:
+        except (ValueError, OverflowError) as e:
             self.logger.error("Computing %s metadata: %s", header_name, str(e))
             return (False, responses.ERROR_COMPUTE_METADATA)
         except HSM2DongleErrorResult as e:
